@@ -76,6 +76,7 @@ class Opts:
         self.force_strat = False
         self.shared_names_bias = 0.0  # probability that a new flow re-uses the NAME of an earlier flow of any kind (names need not be unique)
         self.rebalance_repeat_bias = 0.0  # probability of the sequence A, B, A' of population-split adjustments (A' repeats A's stratification and filter with other proportions; B overlaps A)
+        self.shuffle_split_bias = 0.0  # probability that the population split is declared in another order than the strata
         self.chain_adjust_bias = 0.0  # probability that a later stratification re-adjusts a flow an earlier stratification already adjusted (Multiply / Overwrite chains across stratifications)
         self.mixing_pair_bias = 0.0   # probability of forcing two full mixing-carrying stratifications of different flavours (const / param / timevar), in random order
         for k, v in kw.items():
@@ -439,6 +440,9 @@ class Gen:
                 props = r.choice(SPLITS[n])
                 op["split"] = [[s, C(v)] for s, v in zip(strata_final, props)]
                 self.count("split:literal")
+        if o.shuffle_split_bias > 0 and "split" in op and len(op["split"]) > 1 and r.random() < o.shuffle_split_bias:
+            op["split"] = list(reversed(op["split"])) if len(op["split"]) == 2 or r.random() < 0.5 else op["split"][1:] + op["split"][:1]
+            self.count("split:declared_in_other_order")
         # flow adjustments
         fadj = []
         if o.allow_adjust and not o.unadjusted and self.flows:
